@@ -93,8 +93,11 @@ struct Slot
     std::optional<nitro::dl::dl> lib;
     std::optional<Sym> sym;
     std::optional<std::shared_ptr<void>> raw;
-    int h = -1; // for a symbol: the handle (token) of the library object it was loaded from, read through get() at load time
+    // for a symbol: the handle (token) its shared_ptr keeps alive according to the value semantics the property demands:
+    // read through get() of the library object at load time, copied by copy/assignment, -1 once the symbol was moved from
+    int h = -1;
     bool empty() const { return !lib && !sym && !raw; }
+    int kind() const { return lib ? 1 : sym ? 2 : raw ? 3 : 0; }
     void clear() { lib.reset(); sym.reset(); raw.reset(); h = -1; }
 };
 
@@ -107,6 +110,7 @@ std::string join(const std::vector<std::string>& l)
 }
 std::string id_str(const void* p)
 {
+    if (p == nullptr) return "~"; // null shared_ptr: the object was moved from
     int id = tok_id(p);
     return id < 0 ? "?" : std::to_string(id);
 }
@@ -117,7 +121,7 @@ std::string state_obs(const std::vector<Slot>& sl)
     for (auto& s : sl)
     {
         if (s.lib) sv.push_back("L" + id_str(s.lib->get().get()));
-        else if (s.sym) sv.push_back("S" + std::to_string(s.h));
+        else if (s.sym) sv.push_back("S" + (s.h < 0 ? std::string("~") : std::to_string(s.h)));
         else if (s.raw) sv.push_back("R" + id_str(s.raw->get()));
         else sv.push_back("-");
     }
@@ -188,7 +192,7 @@ std::string run(int n, const std::string& opsw)
             {
                 std::size_t i = arg(1), j = arg(2);
                 int s = static_cast<int>(arg(3));
-                if (valid(i) && valid(j) && sl[i].empty() && sl[j].lib)
+                if (valid(i) && valid(j) && sl[i].empty() && sl[j].lib && sl[j].lib->get() != nullptr)
                 {
                     int h = tok_id(sl[j].lib->get().get());
                     std::string expected;
@@ -228,13 +232,43 @@ std::string run(int n, const std::string& opsw)
             }
             else if (f[0] == "mv")
             {
+                // move construction; the source object stays in its slot, moved from
                 std::size_t i = arg(1), j = arg(2);
                 if (valid(i) && valid(j) && sl[i].empty() && !sl[j].empty())
                 {
                     if (sl[j].lib) sl[i].lib.emplace(std::move(*sl[j].lib));
-                    else if (sl[j].sym) { sl[i].sym.emplace(std::move(*sl[j].sym)); sl[i].h = sl[j].h; }
+                    else if (sl[j].sym) { sl[i].sym.emplace(std::move(*sl[j].sym)); sl[i].h = sl[j].h; sl[j].h = -1; }
                     else sl[i].raw.emplace(std::move(*sl[j].raw));
-                    sl[j].clear();
+                    r = "ok";
+                }
+            }
+            else if (f[0] == "as" || f[0] == "ma" || f[0] == "sw")
+            {
+                // assignment / swap between two EXISTING objects of the same kind (i == j: on itself)
+                std::size_t i = arg(1), j = arg(2);
+                if (valid(i) && valid(j) && !sl[i].empty() && sl[i].kind() == sl[j].kind())
+                {
+                    Slot& a = sl[i];
+                    Slot& b = sl[j];
+                    if (f[0] == "as")
+                    {
+                        if (a.lib) *a.lib = *b.lib;
+                        else if (a.sym) { *a.sym = *b.sym; a.h = b.h; }
+                        else *a.raw = *b.raw;
+                    }
+                    else if (f[0] == "ma")
+                    {
+                        if (a.lib) *a.lib = std::move(*b.lib);
+                        else if (a.sym) { *a.sym = std::move(*b.sym); if (i != j) { a.h = b.h; b.h = -1; } }
+                        else *a.raw = std::move(*b.raw);
+                    }
+                    else
+                    {
+                        using std::swap;
+                        if (a.lib) swap(*a.lib, *b.lib);
+                        else if (a.sym) { swap(*a.sym, *b.sym); std::swap(a.h, b.h); }
+                        else swap(*a.raw, *b.raw);
+                    }
                     r = "ok";
                 }
             }
@@ -247,11 +281,11 @@ std::string run(int n, const std::string& opsw)
             {
                 std::size_t i = arg(1);
                 int x = static_cast<int>(arg(2));
-                if (valid(i) && sl[i].sym)
+                if (valid(i) && sl[i].sym && sl[i].h >= 0) // a moved-from symbol is never called
                 {
                     int h = sl[i].h;
                     // never jump into an unmapped library: that the handle was closed under a live symbol is the finding
-                    if (h < 0 || toks[h]->closes > 0) r = "unmapped";
+                    if (toks[h]->closes > 0) r = "unmapped";
                     else r = "call:" + std::to_string((*sl[i].sym)(x));
                 }
             }
